@@ -8,7 +8,8 @@ LEVEL = "exploration"
 ORACLES = ()
 RULE = ("strings: grammar-based near-miss mutation of valid spellings (truncation, missing ')', doubled commas, units px/deg/%, signs, 1e5, '..', "
         "nested parentheses, var(), inherit/transparent/currentcolor/none), random Unicode incl. non-ASCII digits, control characters, lone "
-        "surrogates, 400-digit numbers, empty/blank; sequences: tuples and lists of length 0-6 over ints (|n|<=1e6, a few 2^70), floats incl. "
+        "surrogates, 400-digit numbers, str.format / % / Template metacharacters, empty/blank; sequences: tuples and lists of length 0-6 over ints (|n|<=1e6, a few 2^70, "
+        "10^400, +-10^5000 beyond the interpreter's int->str limit), floats incl. "
         "+-0.0/nan/+-inf, numeric and arbitrary strings, None, bools. For each input x: Color(x), ColorPair(x, valid), ColorPair(valid, x), "
         "ColorPair(x, x) never raise; valid => rgb is three ints 0..255, invalid => rgb None + non-empty message; invalid pair => 'Not Readable', "
         "(None, False) for every setting; bulk marks the entry invalid and the other entries equal their stand-alone results. "
